@@ -195,6 +195,14 @@ static NOINLINE a_u32 w_poke16_l(a_u32 *word, a_u16 x) { *word = 0; a_u16_setl(w
 static NOINLINE a_u32 w_peek16(a_u32 *word, a_u32 x) { a_u16 const old = a_u16_getl(word); *word = x; return (a_u32)(old ^ a_u16_getl(word)); }
 static NOINLINE a_u64 d_getl(double *d, double x) { a_u64_setl(d, 0); *d = x; return a_u64_getl(d); }
 static NOINLINE double d_setl_then_read(double *d, a_u64 x) { *d = 1.5; a_u64_setl(d, x); return *d; }
+/* accessors of DIFFERENT widths on the same untyped bytes (a malloc'ed block reached through a pointer), nothing of the caller's own type in between: if the accessors themselves
+   go through typed lvalues of their width, the optimiser may treat the 32-bit stores and the 64-bit load as unrelated (seeded change C19-N) */
+static NOINLINE a_u64 m_join_l(unsigned char *b, a_u32 lo, a_u32 hi) { a_u64_setl(b, 0); a_u32_setl(b, lo); a_u32_setl(b + 4, hi); return a_u64_getl(b); }
+static NOINLINE a_u64 m_join_b(unsigned char *b, a_u32 lo, a_u32 hi) { a_u64_setb(b, 0); a_u32_setb(b, hi); a_u32_setb(b + 4, lo); return a_u64_getb(b); }
+static NOINLINE a_u32 m_join16_b(unsigned char *b, a_u16 a, a_u16 c) { a_u32_setb(b, 0); a_u16_setb(b, a); a_u16_setb(b + 2, c); return a_u32_getb(b); }
+static NOINLINE a_u32 m_join16_l(unsigned char *b, a_u16 a, a_u16 c) { a_u32_setl(b, 0xFFFFFFFFu); a_u16_setl(b, a); a_u16_setl(b + 2, c); return a_u32_getl(b); }
+static NOINLINE a_u32 m_split_l(unsigned char *b, a_u64 x) { a_u32_setl(b + 4, 0); a_u64_setl(b, x); return a_u32_getl(b + 4); }
+static NOINLINE a_u64 m_loop_l(unsigned char *b, unsigned n) { a_u64 acc = 0; for (unsigned i = 0; i < n; ++i) { a_u32_setl(b, (a_u32)i); a_u32_setl(b + 4, (a_u32)~i); acc ^= a_u64_getl(b); } return acc; }
 static a_u64 bswap64(a_u64 x) { a_u64 y = 0; for (int i = 0; i < 8; ++i) { y = (y << 8) | (x >> (8 * i) & 0xFF); } return y; }
 static a_u32 bswap32(a_u32 x) { return (x >> 24) | (x >> 8 & 0xFF00) | (x << 8 & 0xFF0000) | (x << 24); }
 static a_u16 bswap16(a_u16 x) { return (a_u16)((x >> 8) | (x << 8)); }
@@ -235,6 +243,20 @@ static void one_case(vf_rng *r)
         EXPECT("a_u16_setl", w_poke16_l(&word, a), (a_u32)a);
         word = hi;
         EXPECT("a_u16_getl", w_peek16(&word, lo), (a_u32)((a_u16)hi ^ (a_u16)lo));
+        cur_ty = "malloc'ed bytes, accessors of two widths";
+        {
+            unsigned const off = (unsigned)(y >> 40) & 7, n = 1 + ((unsigned)(y >> 48) & 7);
+            unsigned char *const blk = (unsigned char *)malloc(off + 8);
+            a_u64 acc = 0;
+            EXPECT("a_u64_setl+a_u32_setl+a_u64_getl", m_join_l(blk + off, lo, hi), x);
+            EXPECT("a_u64_setb+a_u32_setb+a_u64_getb", m_join_b(blk + off, lo, hi), x);
+            EXPECT("a_u32_setb+a_u16_setb+a_u32_getb", m_join16_b(blk + off, a, b), (a_u32)a << 16 | b);
+            EXPECT("a_u32_setl+a_u16_setl+a_u32_getl", m_join16_l(blk + off, a, b), (a_u32)a | (a_u32)b << 16);
+            EXPECT("a_u32_setl+a_u64_setl+a_u32_getl", m_split_l(blk + off, x), hi);
+            for (unsigned i = 0; i < n; ++i) { acc ^= (a_u64)i | (a_u64)(a_u32)~i << 32; }
+            EXPECT("a_u32_setl+a_u64_getl in a loop", m_loop_l(blk + off, n), acc);
+            free(blk);
+        }
         cur_ty = "double";
         {
             double const xv = vf_uniform(r, -1e9, 1e9);
